@@ -63,6 +63,32 @@ theorem unquote_quote_translated (v : List Char) (allow : Bool) :
     Gen.PyFns_Http.unquote_header_value (Gen.PyFns_Http.quote_header_value v allow) = .ok v := by
   rw [quote_header_value_eq, unquote_header_value_eq, Http.unquote_quote_any]
 
+/-- The `for begin, end in self.ranges` loop of `Range.to_header`, as translated from the current
+source, appends to `ranges` the text of every pair (`begin-`, `-suffix`, `begin-last`), for every
+list of pairs and every accumulator. -/
+theorem range_to_header_loop_eq (rs : List (Int × Option Int)) : ∀ acc : List (List Char),
+    Gen.PyFns_Http.range_to_header.loop1 rs acc = .fall (acc ++ rs.map item) := by
+  induction rs with
+  | nil => intro acc; simp [Gen.PyFns_Http.range_to_header.loop1]
+  | cons p t ih =>
+    intro acc
+    obtain ⟨b, e⟩ := p
+    unfold Gen.PyFns_Http.range_to_header.loop1
+    cases e with
+    | none => simp [ih, item, strOfInt_eq]
+    | some e => simp [ih, item, strOfInt_eq]
+
+/-- `Range.to_header()`, as translated from the current source of
+`werkzeug/datastructures/range.py`, prints exactly what the model's `rangeToHeader` prints (the
+dump side of C06's `range_roundtrip`), for every unit text and every list of pairs. -/
+theorem range_to_header_eq (units : List Char) (rs : List (Int × Option Int)) :
+    Gen.PyFns_Http.range_to_header units rs = Http.rangeToHeader ⟨units, rs⟩ := by
+  unfold Gen.PyFns_Http.range_to_header Http.rangeToHeader
+  have e : ([','] : Str) = ",".toList := by decide
+  simp only [range_to_header_loop_eq, List.nil_append, e, join_intercalate]
+  simp
+  rfl
+
 example : Gen.PyFns_Http.quote_header_value "a\"b".toList true = "\"a\\\"b\"".toList := by decide
 
 end Wz.Props.C06T
